@@ -44,7 +44,7 @@ def _cfg(tag: str, **kw) -> str:
 
 
 def _key(**kw) -> str:
-    h = spec_hash("DynCases.tla", "Metanet.tla", "Real.java", "Real.tla")
+    h = spec_hash("DynCases.tla", "Metanet.tla", "Laws.tla", "Real.java", "Real.tla")
     return h + "-" + "-".join(f"{k}{v}" for k, v in sorted(kw.items()))
 
 
